@@ -16,6 +16,26 @@ def parse_combos(line):
     return res
 
 
+def key_fn(kind, sc):
+    """the key families of Model/GenericK.lean, on index combinations over the score list `sc`"""
+    if kind == "sum":
+        return lambda c: sum(sc[i] for i in c)
+    if kind == "max":
+        return lambda c: max([sc[i] for i in c], default=0)
+    if kind == "spread":
+        return lambda c: (max(sc[i] for i in c) - min(sc[i] for i in c)) if c else 0
+    if kind == "len":
+        return len
+    if kind == "const":
+        return lambda c: 0
+    if kind == "distinct":
+        return lambda c: len({sc[i] for i in c})
+    raise ValueError(kind)
+
+
+KEYS = ["max", "spread", "len", "const", "distinct"]
+
+
 class Prop(SeqProp):
     pid = "C17"
     model = "generic"
@@ -26,7 +46,9 @@ class Prop(SeqProp):
             "whole sorted_combinations stream (combination + key) and min-combination searches for intervals around every "
             "attainable sum, the empty interval and intervals beyond the maximum; compared with the Lean model (exact "
             "tie-breaks) and judged against itertools.combinations brute force (ties free); a direct call on the scores as "
-            "elements (repeats) with key=sum (model: sortedCombinationsE); non-trivial = n>=3")
+            "elements (repeats) with key=sum (model: sortedCombinationsE); the same stream for five more keys that never decrease "
+            "under appending but are not additive (max, max-min, len, constant, number of distinct scores; model: "
+            "sortedCombinationsK, theorems for every monotone key); non-trivial = n>=3")
     trusted_base = ["Lean 4.33.0 kernel", "axioms: propext, Classical.choice, Quot.sound (audited per theorem)",
                     "hand-written model Model/Generic.lean (priority queue as a list with the Python tuple order, pop = minimum) "
                     "tied to generic.py by this correspondence run", "heapq modelled as: pop returns the minimum of a strict total order"]
@@ -34,6 +56,7 @@ class Prop(SeqProp):
 
     def corpus(self):
         return [self.mk([2, 1, 2], [(3, 5), (0, 1), (1, 2), (6, 9), (5, 5), (0, 100)], "ties"),
+                self.mk([5, 1, 2], [(0, 9)], "a key that is monotone but not additive (spread): (0,2) before (0,1)"),
                 self.mk([0, 0, 3], [(0, 1), (3, 4), (1, 3)], "zeros"),
                 self.mk([], [(0, 5)], "no elements"),
                 self.mk([5], [(5, 6), (0, 5), (6, 7)], "single element")]
@@ -43,6 +66,9 @@ class Prop(SeqProp):
         ops = [("combos " + s).rstrip()] + [(f"mincomb {a} {b} " + s).rstrip() for a, b in intervals]
         # a direct call on the scores as elements (repeats are the point), key = sum
         ops.append(("combosE " + s).rstrip())
+        # other keys that never decrease when an element is appended (the property's hypothesis), not additive ones included
+        for kind in KEYS:
+            ops.append((f"combosK {kind} " + s).rstrip())
         return Case(ops, {"scores": scores}, label)
 
     def gen(self, rng, n, tier):
@@ -90,6 +116,15 @@ class Prop(SeqProp):
                     if [c for c, _ in full] != plain:
                         line += " yield_key-mismatch"
                     out.append(line)
+                elif w[0] == "combosK":
+                    sc = [int(x) for x in w[2:]]
+                    key = key_fn(w[1], sc)
+                    full = list(g.sorted_combinations(range(len(sc)), key, yield_key=True))
+                    plain = list(g.sorted_combinations(tuple(range(len(sc))), key))
+                    line = fmt(full)
+                    if [c for c, _ in full] != plain:
+                        line += " yield_key-mismatch"
+                    out.append(line)
                 elif w[0] == "mincomb":
                     sc = [int(x) for x in w[3:]]
                     els = list(range(len(sc)))
@@ -121,6 +156,17 @@ class Prop(SeqProp):
                 ks = [k for _, k in got]
                 if ks != sorted(ks):
                     return f"op {i} `{op}`: keys not non-decreasing: {ks}"
+            elif w[0] == "combosK":
+                sc = [int(x) for x in w[2:]]
+                key = key_fn(w[1], sc)
+                allc = [c for r in range(1, len(sc) + 1) for c in itertools.combinations(range(len(sc)), r)]
+                if sorted(c for c, _ in got) != sorted(allc):
+                    return f"op {i} `{op}`: not every non-empty index-ordered combination exactly once"
+                if any(k != key(c) for c, k in got):
+                    return f"op {i} `{op}`: a key alongside is not the key of its combination"
+                ks = [k for _, k in got]
+                if ks != sorted(ks):
+                    return f"op {i} `{op}`: keys not non-decreasing for the monotone key {w[1]!r}: {got}"
             elif w[0] == "combos":
                 sc = [int(x) for x in w[1:]]
                 allc = [c for r in range(1, len(sc) + 1) for c in itertools.combinations(range(len(sc)), r)]
